@@ -1,8 +1,8 @@
 package rules
 
 import (
-	"go/types"
 	"fmt"
+	"go/types"
 	"sort"
 	"strings"
 
